@@ -289,5 +289,5 @@ func c16(r *Run) {
 	// ... and the LinkBuffer mechanisms its Slice / ReadByte / Peek results rest on (C02.R5 reference counts, C01.R2/R3 accounting)
 	r.borrow([]string{"C02.R5:Refer-"}, "C02.R5", "C16.R6", func() { c02(r) })
 	r.borrow([]string{"C02.R1:exposed-before-escape", "C02.R1:marked-node-is-handed-out"}, "C02.R1", "C16.R8", func() { c02(r) })
-	r.borrow([]string{"C01.R2:", "C01.R3:"}, "C01.R", "C16.R7.", func() { c01(r) })
+	r.borrow([]string{"C01.R2:", "C01.R3:", "C01.R4:", "C01.R10:"}, "C01.R", "C16.R7.", func() { c01(r) })
 }
